@@ -640,6 +640,10 @@ func smallScope(r *mc.Run) {
 		maxN = 7
 	}
 	alphabet := []byte{'E', 'D', 'X', 'P'}
+	multiBound := 1
+	if r.Tier == "thorough" {
+		multiBound = 2
+	}
 	var rings []string
 	var rec func(cur string)
 	rec = func(cur string) {
@@ -662,6 +666,8 @@ func smallScope(r *mc.Run) {
 			defer func() { <-sem; done <- struct{}{} }()
 			runScenario(r, scenario{"bootstrap", map[string]string{"root": rg}, "small:" + rg}, 3, -1, true, false)
 			runScenario(r, scenario{"wipeout", map[string]string{"root": rg, "sign": "ED", "k3": "X", "k4": "E"}, "small:" + rg}, 3, -1, true, false)
+			// several keys that need more than one page each: their (offset-style) page tokens coincide
+			runScenario(r, scenario{"wipeout", map[string]string{"root": rg, "sign": "EDEDE", "k3": "X", "k4": "EEEE"}, "small-multipage:" + rg}, 3, multiBound, true, false)
 		}()
 	}
 	for range rings {
